@@ -102,6 +102,10 @@ let c13 args =
   | ["text"; h] ->
     (* the literal text the generator is expected to emit *)
     "model=" ^ hex_of_str (encode (str_of_hex h))
+  | ["srv"; h; _mw; sf] ->
+    (* C13_served_bypass / C13_only_when_installed + C13_embed: the body is the content *)
+    let r = if sf = "1" then h ^ "|SF" else "-|-" in
+    "model=" ^ r ^ " spec=" ^ r
   | _ -> fail_line "C13 args"
 
 (* ---------- router family: S (spec) and R (request) lines ---------- *)
@@ -193,7 +197,7 @@ let string_of_event ?(auth = true) ?(sortcors = false) (e : event) : string opti
   | CorsEv (ms, hs) ->
     let hs' = if sortcors then List.sort_uniq compare (List.map string_of_str hs) else List.map string_of_str hs in
     let hx s = if s = "" then "-" else hex s in
-    Some (Printf.sprintf "CORS(%s;%s)" (hx (join ms)) (hx (String.concat "," hs')))
+    Some (Printf.sprintf "CORS(%s!%s)" (hx (join ms)) (hx (String.concat "," hs')))
 
 let string_of_outcome ?(auth = true) ?(sortcors = false) (o : outcome) =
   let evs = List.filter_map (string_of_event ~auth ~sortcors) o.trace in
@@ -203,7 +207,11 @@ let specs : (string, rspec) Hashtbl.t = Hashtbl.create 64
 
 let s_line args =
   match args with
-  | pkg :: rest -> Hashtbl.replace specs pkg (parse_rspec (kv_of_args rest)); "SKIP spec"
+  | pkg :: rest ->
+    let s = parse_rspec (kv_of_args rest) in
+    Hashtbl.replace specs pkg s;
+    let a = if gen_accepts s then "accept|-" else "reject|-" in
+    "model=" ^ a ^ " spec=" ^ a
   | _ -> fail_line "S args"
 
 (* R <pkg> <cfg> <METHOD> <hexurl> <hexheaders> <hexbody> <hexpath> <hexquery> *)
@@ -222,6 +230,7 @@ let dispatch line =
   | "C19" :: args -> c19 args
   | "C13" :: args -> c13 args
   | "S" :: args -> s_line args
+  | "D" :: _ -> "SKIP doc"
   | "R" :: args -> r_line args
   | _ -> fail_line ("unknown case: " ^ line)
 
